@@ -161,6 +161,22 @@ def run(ctx: Ctx) -> None:
         check_helper(graph, ser_in, "selected",
                      {**key, "helper": "selected", "targets": [fg.target_name(t) for t in targets]}, targets=targets)
 
+    def rescaled(graph, factor: float):
+        """the same tracked graph with every recorded magnitude multiplied by `factor` (as if the whole computation ran
+        at another scale): the same-scale rule is purely relative, so nothing about the pruning may change"""
+        import copy
+        g2 = copy.deepcopy(graph)
+        for n in g2.nodes:
+            mt = n.meta.get("metrics")
+            if mt is None:
+                continue
+            for d in (mt.fwd, getattr(mt, "bwd", None)):
+                if d is None:
+                    continue
+                for fld in ("mean_abs", "abs_mean", "std", "abs_max", "abs_min"):
+                    setattr(d, fld, getattr(d, fld) * factor)
+        return g2
+
     for i in range(n_direct):
         prog = fg.gen_program(rng, rng.randint(1, 12), residuals=rng.randint(0, 2), wrappers=True, attention=(i % 3 == 0),
                               lists=True, nonfloat=True, fan_out=True, multi_out=(i % 4 == 0), losses=(i % 5 == 0),
@@ -172,6 +188,10 @@ def run(ctx: Ctx) -> None:
         with ctx.guard("C19:track", key):
             graph, _, _, _ = tracking.run_tracked_direct(prog, i, backward=bwd)
         if graph is not None:
+            if i % 3 == 1:
+                # tiny activations and gradients (2^-40 ~ 1e-12 times smaller; exact in floating point)
+                with ctx.guard("C19:rescale", key):
+                    exercise(rescaled(graph, 2.0 ** -40), {**key, "metrics_scaled_by": "2^-40"})
             exercise(graph, key)
     for i in range(n_dyn):
         prog = fg.gen_program(rng, rng.randint(2, 10), residuals=1, wrappers=True, attention=False, lists=True,
